@@ -98,6 +98,10 @@ theorem documentedS_typed : documentedS = documented.map (fun m => (m.1, m.2.1, 
 /-- the code's marker list is the recognised one -/
 theorem originMarkers_recognised : originMarkers = recognised := by decide
 
+/-- the translator read every marker probe of `origins()` and `types()`: no probe through a helper it does not know, none with a
+    non-literal name (such a probe would otherwise just be missing from the tables above) -/
+theorem origins_translator_complete : untranslatedOrigins = [] := by decide
+
 /-- every type marker also makes the directory an origin -/
 theorem typeMarkers_are_originMarkers : ∀ m ∈ typeMarkers, (m.1, m.2.1) ∈ originMarkers := by decide
 
